@@ -80,3 +80,25 @@ Theorem c16_converges_swap_block : forall fx M lines s s' k i inj dm md mp d,
   (run_script k lines i inj).1.2 !! M = Some (norm_meta dm, md).
 Proof. exact swap_block_exact. Qed.
 Print Assumptions c16_converges_swap_block.
+
+(* c16_converges is FALSE of the faithful model of the code as it is (finding, replayed on the real code by the
+   correspondence run, key temp-set-leaked-after-failed-write).  `lk_checks` runs the model's own functions on:
+   kernel {cali40s0: hash:ip maxelem 100 {10.0.0.1}}; AddOrReplaceIPSet(s0, same); ApplyUpdates (start-of-day resync);
+   ApplyDeletions; AddOrReplaceIPSet(s0, maxelem 200, {10.0.0.1, 10.0.0.2}); ApplyUpdates in which the write of
+   `swap cali40s0 cali4t0` fails and the retry (cali4t1) succeeds; ApplyDeletions (destroys cali4t1); one more
+   ApplyUpdates + ApplyDeletions.  It states: every step is accepted by the model; the last apply issues no command
+   and asks for no reschedule; no pending deletion, empty resync queue, no resync requested, nothing dirty; cali4t0
+   is in the kernel and unknown to IPSets; the oracle's `converged` is false. *)
+Theorem c16_converges_refuted : lk_checks = true.
+Proof. exact lk_checks_true. Qed.
+Print Assumptions c16_converges_refuted.
+
+(* The same history on the model of the repaired code (fixes/C16-requeue-temp-set-on-write-failure.patch) ends
+   converged: non-vacuity of the repair flag and of `converged`. *)
+Theorem c16_converges_repaired_example : fk_checks = true.
+Proof. exact fk_checks_true. Qed.
+Print Assumptions c16_converges_repaired_example.
+
+(* Non-vacuity of the safety theorems: the reachable history above contains a failing command, a retry, a partial
+   resync, two swaps and two destroys (lk_r3, lk_r4 are `Some`), so `reach`, `apply_updates = Some ...` and
+   `apply_deletions = Some ...` are satisfiable by non-trivial states. *)
